@@ -3,12 +3,12 @@
    Part 1: the row type of the regenerated table coq/Gen_C12.v (translators/c12_validate.py, from the CURRENT sources of
            src/cgnslib.c, src/cgns_internals.c, src/cgns_io.c, src/cgns_error.c): per function its STRUCTURED skeleton, a
            statement sequence in continuation form
-               QEnd | QRet r | QAct a k | QIfFail a t e k | QIf t e k | QIfLM t e k | QLoop b k
+               QEnd | QRet r | QBrk | QAct a k | QIfFail a t e k | QIf t e k | QIfLM t e k | QLoop b k
            (k = what follows).  `QIfFail a t e k` evaluates the check / call `a` and runs t when it FAILS (status <> 0, NULL
            pointer, or -- for an inline test -- the test holds) and e otherwise: if/else arms are exclusive, everything the
            code does between a failing check and its `return` is in t.  QIf is any other condition (decided by an oracle),
            QIfLM the test `local_mode == CG_MODE_WRITE` of the cgi_*_address resolvers (decided by the context the function
-           is called in), QLoop a loop (the oracle decides after every iteration).
+           is called in), QLoop a loop (the oracle decides after every iteration; QBrk leaves the innermost loop).
    Part 2: an abstract machine running skeletons against (file log, tree log, error flag, "a check failed" flag) with an
            oracle for everything the skeleton does not determine.  A failing `return` executed inside the failing arm of an
            argument check gives RINV ("returned at a failing validation"), any other failing return RERR; RINV propagates
@@ -29,11 +29,13 @@ Import ListNotations.
    (allocation failure, "node does not exist", back-end status ...), which is not an argument check *)
 Inductive vclass := CHandle | COpen | CMode (m : gmode) | CIndex | CName | CEnum | CRange | CNull | CState.
 
-(* callee id 1 = none (an inline test).  args: 1-based positions of the function's parameters the act depends on;
-   argmap: per argument of the callee, the caller's parameters that flow into it *)
+(* callee id 1 = none (an inline test).  args: 1-based positions of the function's parameters the act depends on.
+   ids: per argument of the callee its IDENTITY token: 1 = unknown, 1+p = the argument is parameter p of the enclosing
+   function (never assigned to), >= 100 = an expression that does not depend on the caller (the global cg, cg->field, a
+   literal).  fresh / mayinv: set to true by the translator; Validate.prepare clears them for re-validations (below). *)
 Inductive act :=
-| ACheck (v : vclass) (callee : positive) (args : list positive) (argmap : list (list positive))
-| ACall (a : arg0) (callee : positive) (args : list positive) (argmap : list (list positive))
+| ACheck (v : vclass) (callee : positive) (args : list positive) (ids : list positive) (fresh : bool)
+| ACall (a : arg0) (callee : positive) (args : list positive) (ids : list positive) (mayinv : bool)
 | AMirror (m : positive)          (* a store through a pointer into the in-memory tree; m indexes Gen_C12.mirrors *)
 | AErr                            (* cgi_error / cg_io_error / set_error / last_err = .. *)
 | AUnparsed.
@@ -41,6 +43,7 @@ Inductive act :=
 Inductive seq :=
 | QEnd
 | QRet (r : rkind)
+| QBrk                            (* `break` out of the innermost loop *)
 | QAct (a : act) (k : seq)
 | QIfFail (a : act) (t e k : seq)
 | QIf (t e k : seq)
@@ -53,11 +56,24 @@ Definition counted (v : vclass) : bool := match v with CState => false | _ => tr
 Definition failing (r : rkind) : bool := match r with RErr | RVar => true | _ => false end.
 Definition act_callee (a : act) : option (positive * arg0) :=
   match a with
-  | ACheck _ i _ _ => if Pos.eqb i 1 then None else Some (i, ANone)
-  | ACall a0 i _ _ => if Pos.eqb i 1 then None else Some (i, a0)
+  | ACheck _ i _ _ _ => if Pos.eqb i 1 then None else Some (i, ANone)
+  | ACall a0 i _ _ _ => if Pos.eqb i 1 then None else Some (i, a0)
   | _ => None
   end.
-Definition is_counted_check (a : act) : bool := match a with ACheck v _ _ _ => counted v | _ => false end.
+Definition is_counted_check (a : act) : bool := match a with ACheck v _ _ _ _ => counted v | _ => false end.
+(* RE-VALIDATION.  A check whose (checker, argument identities) has already passed on every path reaching it cannot fail
+   (cgi_check_strlen of the same string, cgi_get_zone of the same indices: the entity counts never shrink inside a call),
+   and a callee's failing validation is a failing validation of the CALLER's arguments only if it tests one of the
+   caller's parameters (passed through unchanged) -- or the open mode / the current file -- and is not such a
+   re-validation; a callee's check of anything else (state, a value derived inside the caller) is an internal error of the
+   caller.  prepare (Part 4) clears `fresh` / `mayinv` accordingly.  A run in which a re-validation fails all the same ends
+   with the excluded result RFUEL; a callee's RINV with mayinv off is an ordinary failure (RERR) of the call. *)
+Definition adjust (a : act) (r : res) : res :=
+  match a, r with
+  | ACheck _ _ _ _ false, RERR | ACheck _ _ _ _ false, RINV => RFUEL
+  | ACall _ _ _ _ false, RINV => RERR
+  | _, _ => r
+  end.
 
 (* ------------------------------------------------------------------------------------------------ Part 2 *)
 Record vst := VSt { v_file : list positive; v_mir : list positive; v_err : bool; v_vf : bool }.
@@ -66,7 +82,7 @@ Definition vadd_mir (s : vst) (i : positive) := VSt (v_file s) (i :: v_mir s) (v
 Definition vset_err (s : vst) := VSt (v_file s) (v_mir s) true (v_vf s).
 Definition vset_vf (s : vst) (b : bool) := VSt (v_file s) (v_mir s) (v_err s) b.
 
-Inductive out := Fall | Ret (r : res).
+Inductive out := Fall | Brk | Ret (r : res).
 Definition is_fail (r : res) : bool := match r with RERR | RINV => true | _ => false end.
 
 (* a loop: after the loop test (oracle) the body runs; a body that returns ends the function *)
@@ -77,6 +93,7 @@ Fixpoint loop (n : nat) (body : list bool -> vst -> out * vst * list bool) (o : 
             if negb go then (Fall, x, o1) else
             match body o1 x with
             | (Fall, x1, o2) => loop n' body o2 x1
+            | (Brk, x1, o2) => (Fall, x1, o2)
             | r => r
             end
   end.
@@ -105,20 +122,21 @@ Section Machine.
       | AMirror m => (ROK, (if benign m then x else vadd_mir x m), o)
       | AErr => (ROK, vset_err x, o)
       | AUnparsed => (ROK, vadd_file x 1, o)
-      | ACheck _ _ _ _ | ACall _ _ _ _ =>
-        let '(r, x1, o1) :=
+      | ACheck _ _ _ _ _ | ACall _ _ _ _ _ =>
+        let '(r0, x1, o1) :=
             match act_callee a with
             | None => let '(b, o1) := pop o in ((if b then RERR else ROK), x, o1)       (* an inline test *)
             | Some (i, a0) => do_callee i a0 o x
             end in
+        let r := adjust a r0 in
         (r, (if is_counted_check a && is_fail r then vset_vf x1 true else x1), o1)
       end.
 
     (* is a failing return in the failing arm of `a` a return "at a failing validation"? *)
     Definition arm_guard (a : act) (r : res) : bool :=
       match a with
-      | ACheck v _ _ _ => counted v
-      | ACall _ _ _ _ => match r with RINV => true | _ => false end
+      | ACheck v _ _ _ _ => counted v
+      | ACall _ _ _ _ _ => match r with RINV => true | _ => false end
       | _ => false
       end.
 
@@ -133,6 +151,7 @@ Section Machine.
       match q with
       | QEnd => (Fall, x, o)
       | QRet r => do_ret r g o x
+      | QBrk => (Brk, x, o)
       | QAct a k =>
         let '(r, x1, o1) := do_act a o x in
         match r with
@@ -177,7 +196,7 @@ Section Machine.
     | S n => match rows id with
              | None => (ROK, x, o)
              | Some r => match exec (run n) n c (vbody r) false o x with
-                         | (Fall, x1, o1) => (ROK, x1, o1)
+                         | (Fall, x1, o1) | (Brk, x1, o1) => (ROK, x1, o1)
                          | (Ret z, x1, o1) => (z, x1, o1)
                          end
              end
@@ -204,7 +223,7 @@ Section Static.
   (* does the sequence contain a touching act (lm-dead arms excluded)? *)
   Fixpoint may_touch (c : ctx) (q : seq) : bool :=
     match q with
-    | QEnd | QRet _ => false
+    | QEnd | QRet _ | QBrk => false
     | QAct a k => touch_act c a || may_touch c k
     | QIfFail a t e k => touch_act c a || may_touch c t || may_touch c e || may_touch c k
     | QIf t e k => may_touch c t || may_touch c e || may_touch c k
@@ -230,42 +249,50 @@ Section Static.
 
   Definition obind {A B} (x : option A) (f : A -> option B) : option B := match x with Some a => f a | None => None end.
 
-  (* None: a failing return that counts may follow an effect.  Some s: no such return; s = "something may have been
-     touched when control falls out of the sequence" *)
-  Fixpoint vscan (allf : bool) (c : ctx) (q : seq) (g seen : bool) {struct q} : option bool :=
+  (* None: a failing return that counts may follow an effect.  Some (s, b): no such return; s = "something may have been
+     touched when control falls out of the sequence", b = the same at a `break` *)
+  Definition join2 (a b : bool * bool) : bool * bool := (fst a || fst b, snd a || snd b).
+  Definition then2 (a : bool * bool) (f : bool -> option (bool * bool)) : option (bool * bool) :=
+    obind (f (fst a)) (fun r => Some (fst r, snd a || snd r)).
+
+  Fixpoint vscan (allf : bool) (c : ctx) (q : seq) (g seen : bool) {struct q} : option (bool * bool) :=
     match q with
-    | QEnd => Some seen
-    | QRet r => if failing r && (g || allf) && seen then None else Some false
+    | QEnd => Some (seen, false)
+    | QRet r => if failing r && (g || allf) && seen then None else Some (false, false)
+    | QBrk => Some (false, seen)
     | QAct a k => vscan allf c k g (seen || touch_act c a)
     | QIfFail a t e k =>
       let tch := touch_act c a in
       let ra :=
           match a with
-          | ACall _ _ _ _ =>
-            (* the callee returned RINV (then the arm is guarded) or failed otherwise *)
-            obind (vscan allf c t true (seen || (tch && negb (inv_clean c a)))) (fun s1 =>
-            obind (vscan allf c t false (seen || (tch && negb (fail_clean c a)))) (fun s2 => Some (s1 || s2)))
+          | ACall _ _ _ _ mi =>
+            (* the callee returned RINV (then the arm is guarded; impossible when mayinv is off) or failed otherwise *)
+            obind (if mi then vscan allf c t true (seen || (tch && negb (inv_clean c a))) else Some (false, false)) (fun s1 =>
+            obind (vscan allf c t false (seen || (tch && negb (fail_clean c a)))) (fun s2 => Some (join2 s1 s2)))
+          | ACheck _ _ _ _ false => Some (false, false)                  (* a re-validation does not fail *)
           | _ => vscan allf c t (is_counted_check a) (seen || (tch && negb (fail_clean c a)))
           end in
       obind ra (fun s1 =>
       obind (vscan allf c e g (seen || tch)) (fun s2 =>
-      vscan allf c k g (s1 || s2)))
+      then2 (join2 s1 s2) (vscan allf c k g)))
     | QIf t e k =>
       obind (vscan allf c t g seen) (fun s1 =>
       obind (vscan allf c e g seen) (fun s2 =>
-      vscan allf c k g (s1 || s2)))
+      then2 (join2 s1 s2) (vscan allf c k g)))
     | QIfLM t e k =>
-      obind (if is_CR c then vscan allf c e g seen else vscan allf c t g seen) (fun s1 => vscan allf c k g s1)
+      obind (if is_CR c then vscan allf c e g seen else vscan allf c t g seen) (fun s1 => then2 s1 (vscan allf c k g))
     | QLoop b k =>
-      let sb := seen || may_touch c b in
-      obind (vscan allf c b g sb) (fun _ => vscan allf c k g sb)
+      (* first iteration from `seen`; if an iteration can fall through touched, the later ones start touched *)
+      obind (vscan allf c b g seen) (fun r1 =>
+        if implb (fst r1) seen then vscan allf c k g (seen || snd r1)
+        else obind (vscan allf c b g true) (fun _ => vscan allf c k g true))
     end.
 
   (* --- failing checks return failures: every argument check is the condition of a QIfFail whose failing arm always
      returns a failing status *)
   Fixpoint always_fails (q : seq) : bool :=
     match q with
-    | QEnd => false
+    | QEnd | QBrk => false
     | QRet r => match r with RErr => true | _ => false end
     | QAct _ k => always_fails k
     | QIfFail _ t e k => (always_fails t && always_fails e) || always_fails k
@@ -278,6 +305,7 @@ Section Static.
   Fixpoint no_ok_ret (q : seq) : bool :=
     match q with
     | QEnd => true
+    | QBrk => false
     | QRet r => match r with RErr => true | _ => false end
     | QAct _ k => no_ok_ret k
     | QIfFail _ t e k => no_ok_ret t && no_ok_ret e && no_ok_ret k
@@ -289,7 +317,7 @@ Section Static.
 
   Fixpoint guarded (q : seq) : bool :=
     match q with
-    | QEnd | QRet _ => true
+    | QEnd | QRet _ | QBrk => true
     | QAct a k => negb (is_counted_check a) && guarded k
     | QIfFail a t e k => (if is_counted_check a then arm_fails t else guarded t) && guarded e && guarded k
     | QIf t e k => guarded t && guarded e && guarded k
@@ -303,20 +331,25 @@ Section Static.
     match act_callee a with Some (i, a0) => NS i (tgt a0 c) | None => false end.
   Definition is_err (a : act) : bool := match a with AErr => true | _ => false end.
 
-  (* None: a failing return may be reached without a message.  Some e: e = "a message has certainly been recorded when
-     control falls out of the sequence" *)
-  Fixpoint escan (c : ctx) (q : seq) (err : bool) {struct q} : option bool :=
+  (* None: a failing return may be reached without a message.  Some (e, b): e = "a message has certainly been recorded
+     when control falls out of the sequence", b = the same at every `break` *)
+  Definition meet2 (a b : bool * bool) : bool * bool := (fst a && fst b, snd a && snd b).
+  Definition ethen2 (a : bool * bool) (f : bool -> option (bool * bool)) : option (bool * bool) :=
+    obind (f (fst a)) (fun r => Some (fst r, snd a && snd r)).
+
+  Fixpoint escan (c : ctx) (q : seq) (err : bool) {struct q} : option (bool * bool) :=
     match q with
-    | QEnd => Some err
-    | QRet r => if failing r && negb err then None else Some true
+    | QEnd => Some (err, true)
+    | QRet r => if failing r && negb err then None else Some (true, true)
+    | QBrk => Some (true, err)
     | QAct a k => escan c k (err || is_err a)
     | QIfFail a t e k =>
       obind (escan c t (err || act_noisy c a)) (fun e1 =>
-      obind (escan c e err) (fun e2 => escan c k (e1 && e2)))
+      obind (escan c e err) (fun e2 => ethen2 (meet2 e1 e2) (escan c k)))
     | QIf t e k =>
-      obind (escan c t err) (fun e1 => obind (escan c e err) (fun e2 => escan c k (e1 && e2)))
+      obind (escan c t err) (fun e1 => obind (escan c e err) (fun e2 => ethen2 (meet2 e1 e2) (escan c k)))
     | QIfLM t e k =>
-      obind (if is_CR c then escan c e err else escan c t err) (fun e1 => escan c k e1)
+      obind (if is_CR c then escan c e err else escan c t err) (fun e1 => ethen2 e1 (escan c k))
     | QLoop b k => obind (escan c b err) (fun _ => escan c k err)
     end.
 End Static.
@@ -412,7 +445,7 @@ Definition vin_domain (r : vrow) : bool := vis_api r && negb (smem (vname r) c12
 Fixpoint seq_parsed (q : seq) : bool :=
   let ap := fun a => match a with AUnparsed => false | _ => true end in
   match q with
-  | QEnd | QRet _ => true
+  | QEnd | QRet _ | QBrk => true
   | QAct a k => ap a && seq_parsed k
   | QIfFail a t e k => ap a && seq_parsed t && seq_parsed e && seq_parsed k
   | QIf t e k | QIfLM t e k => seq_parsed t && seq_parsed e && seq_parsed k
@@ -487,26 +520,153 @@ Definition getters_ok_b (pairs : list (string * string)) (g : list grow) : bool 
 Definition getters_cover_b (names : list string) (g : list grow) : bool :=
   forallb (fun n => existsb (fun x => String.eqb (grow_name x) n) g) names.
 
+(* ------------------------------------------------------------------------------------------------ Part 4: re-validations *)
+(* key of a check: (checker, identity tokens of its arguments); usable when the checker is a function and every argument
+   has an identity *)
+Definition ckey := (positive * list positive)%type.
+Fixpoint plist_eqb (a b : list positive) : bool :=
+  match a, b with
+  | [], [] => true
+  | x :: a', y :: b' => Pos.eqb x y && plist_eqb a' b'
+  | _, _ => false
+  end.
+Definition key_eqb (a b : ckey) : bool := Pos.eqb (fst a) (fst b) && plist_eqb (snd a) (snd b).
+Definition key_valid (k : ckey) : bool := negb (Pos.eqb (fst k) 1) && forallb (fun t => negb (Pos.eqb t 1)) (snd k).
+Definition kmem (k : ckey) (l : list ckey) : bool := existsb (key_eqb k) l.
+Definition kinter (a b : list ckey) : list ckey := filter (fun k => kmem k b) a.
+(* established keys at a join: None = the branch does not fall through *)
+Definition ometa (a b : option (list ckey)) : option (list ckey) :=
+  match a, b with
+  | None, x => x
+  | x, None => x
+  | Some a, Some b => Some (kinter a b)
+  end.
+Definition is_param_tok (t : positive) : bool := Pos.leb 2 t && Pos.ltb t 100.
+(* an item of a function's summary: a counted check that can make it return RINV, in the function's own tokens
+   (checker 1 = an inline test, tokens = the parameters it depends on), and whether it concerns every caller (the open-mode
+   and "a file is open" checks) or only callers whose own arguments flow into it *)
+Definition item := (ckey * bool)%type.
+Definition relevant (it : item) : bool := snd it || existsb is_param_tok (snd (fst it)).
+Definition translate (ids : list positive) (t : positive) : positive :=
+  if is_param_tok t then nth (Pos.to_nat t - 2) ids 1%positive else t.
+Definition tr_item (ids : list positive) (it : item) : item := ((fst (fst it), map (translate ids) (snd (fst it))), snd it).
+Definition kadd (k : ckey) (l : list ckey) : list ckey := if kmem k l then l else k :: l.
+Definition imem (k : item) (l : list item) : bool := existsb (fun x => key_eqb (fst k) (fst x) && Bool.eqb (snd k) (snd x)) l.
+Definition iadd (k : item) (l : list item) : list item := if imem k l then l else k :: l.
+Definition kunion (a b : list item) : list item := fold_left (fun l k => iadd k l) a b.
+Definition always_rel (v : vclass) : bool := match v with CMode _ | COpen => true | _ => false end.
+
+Section Prepare.
+  Variable Sm : positive -> list item.         (* summaries of the callees *)
+
+  Definition live_items (est : list ckey) (cal : positive) (ids : list positive) : list item :=
+    filter (fun it => relevant it && negb (key_valid (fst it) && kmem (fst it) est)) (map (tr_item ids) (Sm cal)).
+
+  (* returns the sequence with the flags set, the keys established when control falls out (None: it does not), and the
+     items through which the sequence can return at a failing validation *)
+  Fixpoint prep (est : list ckey) (q : seq) {struct q} : seq * option (list ckey) * list item :=
+    match q with
+    | QEnd => (QEnd, Some est, [])
+    | QRet r => (QRet r, None, [])
+    | QBrk => (QBrk, None, [])
+    | QAct a k =>
+      let a' := match a with
+                | ACall a0 cal args ids _ => ACall a0 cal args ids (negb (match live_items est cal ids with [] => true | _ => false end))
+                | _ => a end in
+      let '(k', ek, ik) := prep est k in (QAct a' k', ek, ik)
+    | QIfFail a t e k =>
+      match a with
+      | ACheck v cal args ids _ =>
+        let ky : ckey := (cal, ids) in
+        let red := key_valid ky && kmem ky est in
+        let '(t', et, it) := prep est t in
+        let '(e', ee, ie) := prep (if key_valid ky then kadd ky est else est) e in
+        let estk := if red then ee else ometa et ee in
+        let '(k', ek, ik) := prep (match estk with Some l => l | None => est end) k in
+        let own : list item :=
+            if red || negb (counted v) then []
+            else [((if Pos.eqb cal 1 then (1%positive, map Pos.succ args) else ky), always_rel v)] in
+        (QIfFail (ACheck v cal args ids (negb red)) t' e' k',
+         match estk with None => None | Some _ => ek end,
+         kunion (kunion (kunion own (if red then [] else it)) ie) ik)
+      | ACall a0 cal args ids _ =>
+        let live := live_items est cal ids in
+        let mi := negb (match live with [] => true | _ => false end) in
+        let '(t', et, it) := prep est t in
+        let '(e', ee, ie) := prep est e in
+        let estk := ometa et ee in
+        let '(k', ek, ik) := prep (match estk with Some l => l | None => est end) k in
+        (QIfFail (ACall a0 cal args ids mi) t' e' k',
+         match estk with None => None | Some _ => ek end,
+         kunion (kunion (kunion live it) ie) ik)
+      | _ =>
+        let '(t', et, it) := prep est t in
+        let '(e', ee, ie) := prep est e in
+        let estk := ometa et ee in
+        let '(k', ek, ik) := prep (match estk with Some l => l | None => est end) k in
+        (QIfFail a t' e' k', match estk with None => None | Some _ => ek end, kunion (kunion it ie) ik)
+      end
+    | QIf t e k =>
+      let '(t', et, it) := prep est t in
+      let '(e', ee, ie) := prep est e in
+      let estk := ometa et ee in
+      let '(k', ek, ik) := prep (match estk with Some l => l | None => est end) k in
+      (QIf t' e' k', match estk with None => None | Some _ => ek end, kunion (kunion it ie) ik)
+    | QIfLM t e k =>
+      let '(t', et, it) := prep est t in
+      let '(e', ee, ie) := prep est e in
+      let estk := ometa et ee in
+      let '(k', ek, ik) := prep (match estk with Some l => l | None => est end) k in
+      (QIfLM t' e' k', match estk with None => None | Some _ => ek end, kunion (kunion it ie) ik)
+    | QLoop b k =>
+      let '(b', _, ib) := prep est b in
+      let '(k', ek, ik) := prep est k in
+      (QLoop b' k', ek, kunion ib ik)
+    end.
+End Prepare.
+
+From Coq Require Import FMapPositive.
+Definition smap := PositiveMap.t (list item).
+Definition sm_get (m : smap) (i : positive) : list item := match PositiveMap.find i m with Some l => l | None => [] end.
+Definition sm_step (t : list vrow) (m : smap) : smap :=
+  fold_left (fun m' r => PositiveMap.add (vid r) (snd (prep (sm_get m) [] (vbody r))) m') t (PositiveMap.empty _).
+Definition sm_size (m : smap) : nat := PositiveMap.fold (fun _ l n => (List.length l + n)%nat) m O.
+Fixpoint sm_iter (t : list vrow) (n : nat) (m : smap) : smap :=
+  match n with
+  | O => m
+  | S n' => let m' := sm_step t m in if Nat.eqb (sm_size m') (sm_size m) then m' else sm_iter t n' m'
+  end.
+Definition summaries (t : list vrow) : smap := sm_iter t 40 (PositiveMap.empty _).
+(* the summaries are a fixpoint (sizes are stable and every function's items are reproduced) *)
+Definition sm_stable_b (t : list vrow) (m : smap) : bool :=
+  forallb (fun r => let l := snd (prep (sm_get m) [] (vbody r)) in
+                    forallb (fun k => imem k (sm_get m (vid r))) l) t.
+Definition prepare (t : list vrow) : list vrow :=
+  let m := summaries t in
+  map (fun r => mkVRow (vid r) (vname r) (vvis r) (vnpar r) (fst (fst (prep (sm_get m) [] (vbody r))))) t.
+
 (* ------------------------------------------------------------------------------------------------ for the extracted engine *)
 (* the argument checks a call certainly passes before anything else can return: the spine of the body.  A check is on the
-   spine while no earlier statement can return; (class, callee, parameter positions) *)
+   spine while no earlier statement can return; (class, callee, parameter positions, identities, is a check) *)
 Fixpoint has_ret (q : seq) : bool :=
   match q with
   | QEnd => false
-  | QRet _ => true
+  | QRet _ | QBrk => true
   | QAct _ k => has_ret k
   | QIfFail _ t e k | QIf t e k | QIfLM t e k => has_ret t || has_ret e || has_ret k
   | QLoop b k => has_ret b || has_ret k
   end.
-Fixpoint spine (q : seq) : list (vclass * positive * list positive * list (list positive) * bool) :=
+Definition spine_item := (vclass * positive * list positive * list positive * bool)%type.
+Fixpoint spine (q : seq) : list spine_item :=
   match q with
   | QAct _ k => spine k
   | QIfFail a t e k =>
     if arm_fails t then
-      let here := match a with
-                  | ACheck v i args am => [(v, i, args, am, true)]
-                  | ACall _ i args am => [(CState, i, args, am, false)]
-                  | _ => [] end in
+      let here : list spine_item :=
+          match a with
+          | ACheck v i args ids _ => [(v, i, args, ids, true)]
+          | ACall _ i args ids _ => [(CState, i, args, ids, false)]
+          | _ => [] end in
       here ++ (if has_ret e then [] else spine e ++ spine k)
     else if has_ret t || has_ret e then [] else spine k
   | QIf t e k | QIfLM t e k => if has_ret t || has_ret e then [] else spine k
@@ -514,24 +674,22 @@ Fixpoint spine (q : seq) : list (vclass * positive * list positive * list (list 
   | _ => []
   end.
 
-Definition nth_map (am : list (list positive)) (j : positive) : list positive := nth (Pos.to_nat j - 1) am [].
-(* parameter p of the caller is certainly validated with class v: directly, or by a delegate on whose spine the check of
-   the corresponding parameter sits (the caller's parameter must be passed through alone) *)
+(* parameter p (1-based) of the caller is certainly validated with class v: directly, or by a delegate on whose spine the
+   check of the corresponding parameter sits (the caller's parameter must be passed through unchanged) *)
 Fixpoint claims (depth : nat) (rows : positive -> option vrow) (q : seq) : list (positive * vclass) :=
   match depth with
   | O => []
   | S d =>
-    flat_map (fun it : vclass * positive * list positive * list (list positive) * bool =>
-      let '(v, i, args, am, isck) := it in
+    flat_map (fun it : spine_item =>
+      let '(v, i, args, ids, isck) := it in
       if isck then map (fun p => (p, v)) args
       else match rows i with
            | Some r =>
              flat_map (fun pc : positive * vclass =>
                          let '(pj, vj) := pc in
-                         match nth_map am pj with
-                         | [p] => [(p, vj)]
-                         | _ => []
-                         end) (claims d rows (vbody r))
+                         let t := nth (Pos.to_nat pj - 1) ids 1%positive in
+                         if is_param_tok t then [(Pos.pred t, vj)] else [])
+                      (claims d rows (vbody r))
            | None => []
            end) (spine q)
   end.
@@ -543,12 +701,20 @@ Definition vclass_tag (v : vclass) : string :=
 Definition claims_all (t : list vrow) : list (string * list (positive * string)) :=
   map (fun r => (vname r, map (fun pc => (fst pc, vclass_tag (snd pc))) (claims 4 (vrows_of t) (vbody r)))) (filter vis_api t).
 
-(* open modes an entry point certainly rejects: the mode checks on its spine *)
-Definition mode_gates (q : seq) : list gmode :=
-  flat_map (fun it : vclass * positive * list positive * list (list positive) * bool =>
-              match it with (CMode m, _, _, _, true) => [m] | _ => [] end) (spine q).
+(* open modes an entry point certainly rejects: the mode checks on its spine (also through delegates) *)
+Fixpoint mode_gates (depth : nat) (rows : positive -> option vrow) (q : seq) : list gmode :=
+  match depth with
+  | O => []
+  | S d =>
+    flat_map (fun it : spine_item =>
+                match it with
+                | (CMode m, _, _, _, true) => [m]
+                | (_, i, _, _, false) => match rows i with Some r => mode_gates d rows (vbody r) | None => [] end
+                | _ => []
+                end) (spine q)
+  end.
 Definition mode_gates_all (t : list vrow) : list (string * list gmode) :=
-  map (fun r => (vname r, mode_gates (vbody r))) (filter vis_api t).
+  map (fun r => (vname r, mode_gates 3 (vrows_of t) (vbody r))) (filter vis_api t).
 
 (* the getter model on the array [0; 1; ..; n-1]: the offset of the element returned, -1 for NULL, -2 for an access outside *)
 Local Open Scope Z_scope.
